@@ -3,13 +3,20 @@ Driver glue for M-GlyphOrder: S-expression ⇄ `GlyphOrder.Op` / observation.  N
 proved core.
 
 Input lines
-  (init ((<layer> (<glyph> …)) …) <lib>)   start state: layers in layer order (all observed by the
-                                            font, as after loading / deserialising), lib value
+  (init ((<layer> (<glyph> …)) …) <lib> <default>)
+                                            start state: layers in layer order (all observed by the
+                                            font, as after loading / deserialising), lib value, name
+                                            of the default layer
   (newGlyph <layer> <g>) (insertGlyph <layer> <g>) (delGlyph <layer> <g>) (rename <layer> <old> <new>)
   (setOrder <lib>) (setLib <lib>) (newLayer <name>) (delLayer <name>)
+  (renameLayer <old> <new>) (setLayerOrder (<name> …)) (setDefault <name>)
+  (fontNewGlyph <g>) (fontInsertGlyph <g>) (fontDelGlyph <g>)
+  (holdLayer <layer>) (releaseLayer <layer>) (disableLayer <layer>) (enableLayer <layer>)
+  (holdFont) (releaseFont)
   (save)                                    persisting and re-reading: observation only
-where <lib> = none | (some (<name> …)).
-Output line: (<res> (order <name> …) <lib> (layers (<layer> (set <glyph> …)) …))
+where <lib> = none | (some (<name> …)), <default> = none | (some <name>).
+Output line: (<res> (order <name> …) <lib> (layers (<layer> (set <glyph> …) <held?> <disabled?>) …)
+              <default> (keys (set <glyph> …)))
 -/
 import DefconModel.Util.SExp
 import DefconModel.GlyphOrder
@@ -34,29 +41,47 @@ def parseOp : SExp → Option Op
   | .list [.atom "setLib", v] => do some (.setLib (← optStrList? v))
   | .list [.atom "newLayer", n] => do some (.newLayer (← asStr? n))
   | .list [.atom "delLayer", n] => do some (.delLayer (← asStr? n))
+  | .list [.atom "renameLayer", o, n] => do some (.renameLayer (← asStr? o) (← asStr? n))
+  | .list [.atom "setLayerOrder", ns] => do some (.setLayerOrder (← strList? ns))
+  | .list [.atom "setDefault", n] => do some (.setDefault (← asStr? n))
+  | .list [.atom "fontNewGlyph", g] => do some (.fontNewGlyph (← asStr? g))
+  | .list [.atom "fontInsertGlyph", g] => do some (.fontInsertGlyph (← asStr? g))
+  | .list [.atom "fontDelGlyph", g] => do some (.fontDelGlyph (← asStr? g))
+  | .list [.atom "holdLayer", l] => do some (.holdLayer (← asStr? l))
+  | .list [.atom "releaseLayer", l] => do some (.releaseLayer (← asStr? l))
+  | .list [.atom "disableLayer", l] => do some (.disableLayer (← asStr? l))
+  | .list [.atom "enableLayer", l] => do some (.enableLayer (← asStr? l))
+  | .list [.atom "holdFont"] => some .holdFont
+  | .list [.atom "releaseFont"] => some .releaseFont
   | _ => none
 
 def encRes : Res → SExp
   | .ok => .atom "ok"
   | .err .keyError => err "KeyError"
+  | .err .assertionError => err "AssertionError"
+  | .err .unsupported => err "NotModelled"
 
-def encLayer (kl : String × Layer) : SExp := .list [.str kl.1, tagged "set" (kl.2.glyphs.map .str)]
+def encLayer (kl : String × Layer) : SExp :=
+  .list [.str kl.1, tagged "set" (kl.2.glyphs.map .str), ofBool (kl.2.held != 0), ofBool (kl.2.disabled != 0)]
 
 def observe (r : SExp) (f : Font) : SExp :=
   .list [r, tagged "order" ((glyphOrder f).map .str), ofOpt (ofList .str) f.lib,
-         tagged "layers" (f.layers.map encLayer)]
+         tagged "layers" (f.layers.map encLayer), ofOpt .str f.default,
+         tagged "keys" [tagged "set" ((fontKeys f).map .str)]]
 
 /-- a new `Font()`: one empty, observed layer `public.default`; no glyph order in the lib -/
-def initial : Font := { layers := [("public.default", { glyphs := [], observed := true })], lib := none }
+def initial : Font :=
+  { layers := [("public.default", { glyphs := [], observed := true })], lib := none,
+    default := some "public.default" }
 
 def driverStep (f : Font) (line : SExp) : Font × SExp :=
   match line with
-  | .list [.atom "init", .list ls, lib] =>
-    match ls.mapM parseLayer, optStrList? lib with
-    | some layers, some v =>
-      let f' : Font := { layers := layers, lib := v }
+  | .list [.atom "init", .list ls, lib, dflt] =>
+    match ls.mapM parseLayer, optStrList? lib, asOpt? asStr? dflt with
+    | some layers, some v, some d =>
+      let f' : Font := { layers := layers, lib := v, default := d }
       (f', observe (.atom "ok") f')
-    | _, _ => (f, .atom "bad-op")
+    | _, _, _ => (f, .atom "bad-op")
   | .list [.atom "save"] => (f, observe (.atom "ok") f)
   | _ =>
     match parseOp line with
